@@ -147,6 +147,9 @@ var c10Scripts = [][]string{
 	{"Cw"}, {"Cw", "WT"}, {"Cw", "WT", "WM"}, {"Cw", "WT", "WM", "C"},
 	{"aC"}, {"aC", "A"}, {"aCw"}, {"aCw", "A"}, {"aCw", "A", "WT"}, {"aCw", "A", "WT", "WM"},
 	{"aC", "A", "A"}, {"Cw", "WT", "WT"},
+	// a step of the exchange is refused (or the whole CONNECT is, while an earlier exchange is open)
+	{"Cw", "WTwild"}, {"Cw", "WTq3"}, {"aC", "Aother"}, {"aCw", "A", "WTwild"}, {"Cw", "WTwild", "Cw"},
+	{"Cw", "C0"}, {"aC", "C0"}, {"Cw", "WT", "C0"}, {"Cw", "Cp"}, {"aC", "A", "C0"}, {"Cw", "WTempty"},
 }
 
 func scriptPkt(g *Gen, s string) refsn.Pkt {
@@ -161,6 +164,20 @@ func scriptPkt(g *Gen, s string) refsn.Pkt {
 		return refsn.Pkt{Type: refsn.WILLTOPIC, TopicName: "will/t", QoS: 1, Will: true}
 	case "WM":
 		return refsn.Pkt{Type: refsn.WILLMSG, Data: []byte("bye")}
+	case "WTwild":
+		return refsn.Pkt{Type: refsn.WILLTOPIC, TopicName: []string{"will/#", "will/+/x", "#"}[g.Intn(3)], QoS: 1, Will: true}
+	case "WTq3":
+		return refsn.Pkt{Type: refsn.WILLTOPIC, TopicName: "will/t", QoS: 3, Will: true}
+	case "WTempty":
+		return refsn.Pkt{Type: refsn.WILLTOPIC}
+	case "Aother":
+		return authPkt(g, 2+g.Intn(2))
+	case "C0":
+		return connectPkt("c1", 0, g.Bool(0.5), true)
+	case "Cp":
+		c := connectPkt("c1", uint16(g.Range(5, 90)), g.Bool(0.5), true)
+		c.ProtocolID = uint8(g.Range(2, 255))
+		return c
 	}
 	return refsn.Pkt{Type: refsn.PINGREQ}
 }
@@ -548,8 +565,8 @@ func genC34(g *Gen, idx int) *Plan {
 
 func init() {
 	Register(&Check{ID: "C10", Level: "fault_enumeration",
-		Rule:   "14 connect-exchange scripts (every prefix of CONNECT[will][AUTH][WILLTOPIC][WILLMSG], repeated CONNECT/AUTH/WILLTOPIC) after which the peer is silent; complete scripts face a broker that never answers CONNECT; each script with seeded timing, link latency and yield sites; virtual-time deadline = last CONNECT + 5 s + 100 ms poll + 3 ms slack; non-trivial = session in which a CONNECT was consumed and no broker CONNACK arrived",
-		Gen:    genC10, Oracle: oracleC10, Quick: 420, Thorough: 14000})
+		Rule:   "25 connect-exchange scripts (every prefix of CONNECT[will][AUTH][WILLTOPIC][WILLMSG], repeated CONNECT/AUTH/WILLTOPIC, a refused step: wildcard/QoS 3/empty WILLTOPIC, AUTH with another method, CONNECT with zero keep-alive or an unknown protocol id while an exchange is open) after which the peer is silent; complete scripts face a broker that never answers CONNECT; each script with seeded timing, link latency and yield sites; virtual-time deadline = last CONNECT + 5 s + 100 ms poll + 3 ms slack; non-trivial = session in which a CONNECT was consumed and no broker CONNACK arrived",
+		Gen:    genC10, Oracle: oracleC10, Quick: 500, Thorough: 15000})
 	Register(&Check{ID: "C13", Level: "fault_enumeration",
 		Rule:   "7 session scripts (unconnected, connecting, active idle, active with traffic and pending QoS 1/2 transactions, asleep, asleep with pinger, awake) x 7 causes (gateway shutdown, plain DISCONNECT, broker FIN, broker RST, undecodable datagram, illegal packet, connect timeout) at a seeded instant; deadline = cause + 100 ms + 3 ms; DISCONNECT-to-client rule; goroutine census of gateway/transactions/util frames after final shutdown; non-trivial = a termination cause occurred",
 		Gen:    genC13, Oracle: oracleC13, Quick: 560, Thorough: 28000})
